@@ -184,6 +184,11 @@ EDITS = {
         ("ps07", PAR + "cst_parser.rs", "            Some(kind) if kinds.contains(&kind) => {\n                self.bump();\n                true", "            Some(kind) if kinds.contains(&kind) => {\n                self.current = 0;\n                true", "verus", "cst_parser"),
     ],
     "C17": [
+        ("gs01", "crates/lib/mimium-lang/src/ast/program.rs", "                if !module_prefix.is_empty() {\n                    collect_statement_bindings(&statement)", "                if module_prefix.len() > 1 {\n                    collect_statement_bindings(&statement)", "verus", "use_tables"),
+        ("gs02", "crates/lib/mimium-lang/src/ast/program.rs", "                                .insert(name, module_prefix.to_vec());\n                        });", "                                .insert(name, module_prefix[1..].to_vec());\n                        });", "verus", "use_tables"),
+        ("md01", "crates/lib/mimium-lang/src/ast/program.rs", "                            errs,\n                            &new_prefix,\n                            module_info,\n                        )\n                    }\n                    None => {", "                            errs,\n                            module_prefix,\n                            module_info,\n                        )\n                    }\n                    None => {", "verus", "use_tables"),
+        ("md02", "crates/lib/mimium-lang/src/ast/program.rs", "                let mut new_prefix = module_prefix.to_vec();\n                new_prefix.push(name);", "                let mut new_prefix = module_prefix.to_vec();\n                new_prefix.insert(0, name);", "verus", "use_tables"),
+        ("md03", "crates/lib/mimium-lang/src/ast/program.rs", "                let restore_decl = (Statement::DeclareStage(current_stage.clone()), module_loc);", "                let restore_decl = (Statement::DeclareStage(StageKind::Main), module_loc);", "verus", "use_tables"),
         ("rn01", "crates/lib/mimium-lang/src/compiler/mirgen/convert_qualified_names.rs", "resolved_path.len() < 2", "resolved_path.len() < 1", "verus", "resolve_names"),
         ("rn02", "crates/lib/mimium-lang/src/compiler/mirgen/convert_qualified_names.rs", "self.current_module_context.starts_with(target_module)", "target_module.starts_with(&self.current_module_context)", "verus", "resolve_names"),
         ("rn03", "crates/lib/mimium-lang/src/compiler/mirgen/convert_qualified_names.rs", "        if !is_public && !is_same_module {", "        if !is_public && is_same_module {", "verus", "resolve_names"),
